@@ -213,7 +213,7 @@ end
 
 /-! ### `from_string (to_string v)` at the top of the tree (strings, enum names and bools are bare texts there) -/
 
-theorem text_rt (lib : TextLib F) (hl : TextLib.Lawful lib) (dt : DType F) (hwf : WFT dt) (hnames : NamesStripped lib dt)
+theorem text_rt (lib : TextLib F) (hl : TextLib.Lawful lib) (dt : DType F) (hwf : WFT dt)
     (v : PVal F) (hv : Valid dt v) (hc : Canon v) (htc : TextComplete dt v) :
     ∃ t v', Datatypes.toString lib dt v = some t ∧ fromString lib dt t = .ok v' ∧ Datatypes.toString lib dt v' = some t ∧
       SameButFloats v' v ∧ Sendable dt v' := by
@@ -229,10 +229,8 @@ theorem text_rt (lib : TextLib F) (hl : TextLib.Lawful lib) (dt : DType F) (hwf 
     cases v <;> simp only [Valid, InSetG] at hv <;> try exact hv.elim
     case enum n k =>
       simp only [WFT, DType.WF] at hwf
-      simp only [NamesStripped] at hnames
-      have hs : lib.strip n = n := hnames (n, k) hv
       have hf := find_member_name hv hwf.2.1
-      exact ⟨.bare n, .enum n k, rfl, by simp [fromString, hs, hf], rfl, by simp [SameButFloats],
+      exact ⟨.bare n, .enum n k, rfl, by simp [fromString, hf], rfl, by simp [SameButFloats],
         by simpa [Sendable, InSetG] using hv⟩
   | bool =>
     cases v <;> simp only [Valid, InSetG] at hv <;> try exact hv.elim
